@@ -360,6 +360,7 @@ Inductive expr :=
 | EMkClo (id : nat) (n : name) (v : cval)    (* func(){n=v; func(){n}}() : a closure over a function-scope binding;
                                                id: unique per occurrence (the text of the literal is unique too) *)
 | EMaker (id : nat) (v : cval)              (* mk(v) with mk=func(mkn){func(){mkn}}: every such closure prints alike *)
+| EMkParam (id : nat) (n : name) (v : cval) (* func(n){[()=>n, ...writers...]}(v): closures over the PARAMETER n of their maker *)
 | ECallClo (g : name).                      (* g() *)
 
 Inductive attempt :=
@@ -374,8 +375,33 @@ Inductive attempt :=
 | ACallAlias (n y : name) (k : key) (v : cval)    (* func(n){y[k]=v;n}(y): the parameter is an alias of y's value *)
 | ARead (n : name).                               (* n *)
 
+(* what a closure that ESCAPED its maker does, when called later, to the constant-named parameter / local n of that maker *)
+Inductive inner :=
+| IRead                                 (* ()=>n *)
+| IAssign (v : cval) (define : bool)    (* x=>{n=x}  /  x=>{n:=x} *)
+| IParam (v : cval)                     (* func(n){n} : a parameter of the same name *)
+| ILoopInt (a b : Z)                    (* (a,b)=>{for n=a:b{n}} *)
+| ILoopList (l : list cval)             (* l=>{for n=l{n}} *)
+| IIdxSet (k : key) (v : cval)          (* (k,x)=>{n[k]=x} *)
+| IDelElem (k : key)                    (* k=>del(n[k]) *)
+| IIncr (delta : Z).                    (* ()=>{n++} *)
+
+Definition inner_attempt (n : name) (i : inner) : attempt :=
+  match i with
+  | IRead => ARead n
+  | IAssign v d => AAssign n (ELit v) d
+  | IParam v => ACall n v
+  | ILoopInt a b => AForInt n a b
+  | ILoopList l => AForList n l
+  | IIdxSet k v => AIdxSet n k v
+  | IDelElem k => ADelElem n k
+  | IIncr d => AIncr n d false
+  end.
+
 Inductive scope := STop | SFn | SFn2 | SLoop.     (* at top level / inside func(){..}() / two deep / inside for 2 {..} *)
-Inductive event := Ev (s : scope) (a : attempt).
+Inductive event :=
+| Ev (s : scope) (a : attempt)
+| EvClo (g : name) (i : inner).      (* g[..](..): one of the closures of the bundle g, made by EMkParam, called at top level *)
 
 Definition is_big (v : cval) : bool :=
   match v with
@@ -474,6 +500,18 @@ Fixpoint eval_expr (c : ccfg) (e : env) (ex : expr) : env * res cval :=
   | ECallSet y k x => on_value (read_name e y) (fun v => x_idx_set v k x)
   | EPlus x v => on_value (eval_expr c e x) (fun w => x_plus w v)
   | EMaker id v => (e, Ok (XCloLocal 0 id maker_param v))
+  | EMkParam id n v =>
+    if negb (length e =? 1) then (e, Dom) else
+    if is_int v && reg_bound c n then (e, Dom) else     (* the parameter would be a register, not a binding *)
+    match create_or_set c (empty_frame :: e) n v true with
+    | (f :: t, Ok _) =>
+      match nlookup (fstore f) n with
+      | Some (OVal w) => (t, Ok (XCloLocal (S id) id n w))
+      | _ => (t, Stuck)
+      end
+    | (e1, Ok _) => (tl e1, Stuck)
+    | (e1, x) => (tl e1, x)
+    end
   | EMkClo id n v =>
     (* only at top level: the captured frame then has the top-level environment as its only outer frame *)
     if negb (length e =? 1) then (e, Dom) else
@@ -586,8 +624,31 @@ Definition do_attempt (c : ccfg) (e : env) (a : attempt) : env * res cval :=
   | ARead n => read_name e n
   end.
 
+(* The call runs in a new frame whose outer frame is the maker's frame (which binds n to w), then the top level.
+   Modelled when the top level does not bind the same name to another value (else outside the model: Dom). *)
+Definition run_closure (c : ccfg) (e : env) (g : name) (i : inner) : env * res cval :=
+  match read_name e g with
+  | (e1, Ok (XCloLocal _ _ n w)) =>
+    if negb (constant_name n) then (e1, Dom) else
+    let same_below := match root_frame e1 with
+                      | Some f => match nlookup (fstore f) n with
+                                  | Some (OVal x) => cval_eqb true x w
+                                  | Some (ORef _ _) => false
+                                  | None => true
+                                  end
+                      | None => false
+                      end in
+    if negb same_below then (e1, Dom) else
+    let (e2, r) := do_attempt c (empty_frame :: mkframe [(n, OVal w)] :: e1) (inner_attempt n i) in
+    (tl (tl e2), r)
+  | (e1, Ok (XCloOuter _ _ _)) => (e1, Dom)
+  | (e1, Ok _) => (e1, Dom)
+  | (e1, x) => (e1, x)
+  end.
+
 Definition run_event (c : ccfg) (e : env) (ev : event) : env * res cval :=
   match ev with
+  | EvClo g i => if length e =? 1 then run_closure c e g i else (e, Dom)
   | Ev STop a => do_attempt c e a
   | Ev SFn a => let (e1, r) := do_attempt c (empty_frame :: e) a in (tl e1, r)
   | Ev SFn2 a => let (e1, r) := do_attempt c (empty_frame :: empty_frame :: e) a in (tl (tl e1), r)
